@@ -1,6 +1,7 @@
 package props
 
 import (
+	"go/token"
 	"fmt"
 	"go/types"
 	"sort"
@@ -15,10 +16,22 @@ import (
 func init() { Registry["C01"] = checkC01 }
 
 // C01 - a publish reaches exactly the clients whose current subscriptions match it.
+// isOnPublishPtr: t is *OnPublishFunc of package service.
+func isOnPublishPtr(t types.Type) bool {
+	pt, ok := t.(*types.Pointer)
+	if !ok {
+		return false
+	}
+	n, ok := pt.Elem().(*types.Named)
+	return ok && n.Obj().Name() == "OnPublishFunc" && n.Obj().Pkg() != nil && n.Obj().Pkg().Path() == pkgService
+}
+
 func checkC01(c *Ctx) {
 	c.R.NotCover = append(c.R.NotCover, "the matching relation itself (C06)", "payload identity through the rings (C14)", "exactly-once under interleavings of subscribe and publish (schedules)")
 	c.useRules(ruleP2, ruleP4, ruleP9, ruleP5, ruleP8, ruleL1)
 	// the message that is fanned out is a view of the publisher's incoming ring: it is used before its bytes are released
+	// a delivery at QoS 1/2 is registered before it counts as sent: the registration refuses nothing that needs an acknowledgement
+	c.waitAcceptsRequests()
 	c.commitAfterUse()
 	// a resumed session is re-subscribed from the session's two parallel lists
 	c.useRules(ruleT5)
@@ -206,6 +219,27 @@ func (c *Ctx) fanOut(fn *ssa.Function) {
 						return isNilEdge
 					}
 				}
+				// the callback pointer taken out of the element by `fn, ok := s.(*OnPublishFunc)`: its nil test
+				if ex, isEx := s.(*ssa.Extract); isEx && ex.Index == 0 {
+					if ta, isTA := ex.Tuple.(*ssa.TypeAssert); isTA && ta.CommaOk && elemOf(f, ta.X) && isOnPublishPtr(ta.AssertedType) {
+						if k, ok2 := otherOperand(b, s).(*ssa.Const); ok2 && k.IsNil() {
+							return (b.Op.String() == "==") == (idx == 0)
+						}
+					}
+				}
+			}
+		}
+		// `fn, ok := s.(*OnPublishFunc)`: every subscriber the library registers is a *OnPublishFunc (the token
+		// &svc.onpub, Server.Subscribe's argument); the "not ok" edge skips nothing that could have been invoked
+		cond := iff.Cond
+		neg := false
+		if u, isU := cond.(*ssa.UnOp); isU && u.Op == token.NOT {
+			cond, neg = u.X, true
+		}
+		if ex, isEx := cond.(*ssa.Extract); isEx && ex.Index == 1 {
+			if ta, isTA := ex.Tuple.(*ssa.TypeAssert); isTA && ta.CommaOk && elemOf(f, ta.X) && isOnPublishPtr(ta.AssertedType) {
+				notOkEdge := (idx == 1) != neg
+				return notOkEdge
 			}
 		}
 		return false
